@@ -408,6 +408,29 @@ def check(fx, rep, tier):
         sample={"rule": "R03.5", "consults_thread_count": consults},
     )
 
+    # ... and the instruction a thread is created on: the initial thread sits on offset 0 and the main loop marks and executes the
+    # current instruction without asking for its visit count (only advance() asks, for ip + 1)
+    def consults_limit(body):
+        return any((F.callee_def(n) or "").endswith("VisitedOpcodes::at_visit_limit") for n, _ in F.calls(body["hir"]["value"]))
+
+    adv_def = getattr(vm, "advance_own", adv)["def"]
+    asks = consults_limit(ml)
+    for n, _ in F.calls(ml["hir"]["value"]):
+        for d in cg.resolve_local(n):
+            hb = fx.body(d)
+            if hb is not None and hb.get("hir") and d != adv_def and hb.get("impl_self") == ml.get("impl_self") and consults_limit(hb):
+                asks = True
+    new_b = fx.body("vm::VM::new")
+    asks = asks or (new_b is not None and any((F.callee_def(n) or "").endswith("VisitedOpcodes::at_visit_limit") for n, _ in F.calls(new_b["hir"]["value"])))
+    rep.oblige(
+        asks,
+        "R03.5",
+        "entry-instruction-visit-count",
+        F.loc(ml["span"]),
+        "the instruction the initial thread is created on is marked and executed without its visit count being compared with the limit (the limit is consulted only for the step to ip + 1): with a limit of 0 the instruction at offset 0 still runs once",
+        sample={"rule": "R03.5", "main_loop_consults_limit": asks},
+    )
+
     # ---------------------------------------------------------------- R03.6
     rows = tables.Keyed("loops.tsv", fx)
     entries = [b["def"] for b in fx.fn_bodies() if (b.get("impl_self") or "").startswith("extractor::Extractor<") and b.get("name") == "analyze"]
